@@ -1113,7 +1113,7 @@ impl<'a> Gen<'a> {
             self.gen_wide_list();
             return;
         }
-        if self.n() >= 3 && self.prof != Profile::Small && self.rng.chance(1, 120) {
+        if self.n() >= 3 && self.prof != Profile::Small && self.rng.chance(1, 250) {
             self.gen_wide_macro();
             return;
         }
